@@ -492,6 +492,61 @@ pub fn cmd_fuzz(a: &Args) {
 	sink.summary(json!({"base_files": bases.len()}));
 }
 
+/// Grammar-aware corruption of the metadata element: every byte of it replaced by every value, and every position
+/// followed by an inserted run of 0xFF bytes (length / type markers with extreme values).
+pub fn cmd_meta_fuzz(a: &Args) {
+	let db = LayoutDb::load(a.req("layout"));
+	let sink = Sink::new(a.get("replay-dir").unwrap_or("work/replays"));
+	let threads = a.num("threads", 8) as usize;
+	let seed = a.num("seed", 1);
+	let beh = crate::fields::simple_beh("C", &["single", "none", "none", "none"], 1, 0);
+	let built = gen::build_beh(&db, &beh, &GenOpts::new(seed, [3, 12, 0]));
+	let start = built.raw_end;
+	let n = built.bytes.len();
+	sink.sample(|| json!({"metadata_region": [start, n], "mutations": "each byte x 256 values; each position + inserted 0xFF runs and wide length markers"}));
+	let positions: Vec<usize> = (start..n).collect();
+	let next = std::sync::atomic::AtomicUsize::new(0);
+	std::thread::scope(|s| {
+		for _ in 0..threads.max(1) {
+			s.spawn(|| {
+				let mut dog = Watchdog::new();
+				loop {
+					let i = next.fetch_add(1, std::sync::atomic::Ordering::SeqCst);
+					if i >= positions.len() {
+						return;
+					}
+					let p = positions[i];
+					let mut muts: Vec<Vec<u8>> = vec![];
+					for v in 0..=255u8 {
+						let mut b = built.bytes.clone();
+						b[p] = v;
+						muts.push(b);
+					}
+					for marker in [b'U', b'i', b'I', b'l', b'L', b'd', b'D', b'S', b'C', b'[', b'#', b'$'] {
+						for fill in [0xFFu8, 0x80, 0x7F] {
+							let mut b = built.bytes.clone();
+							b[p] = marker;
+							for _ in 0..8 {
+								b.insert(p + 1, fill);
+							}
+							muts.push(b);
+						}
+					}
+					for m in muts {
+						sink.count(fnv(&m), true);
+						let m = std::sync::Arc::new(m);
+						if let Some((kind, detail)) = all_reads(m.clone(), &mut dog, Duration::from_secs(10)) {
+							let cls = format!("metadata,{}", if kind == "panic" { panic_site(&detail) } else { String::new() });
+							sink.report(&viol("metadata_adversary", &cls, &kind, format!("byte {} of the metadata element: {}", p - start, detail)), &|| json!({"bytes_hex": crate::util::hex(&m)}));
+						}
+					}
+				}
+			});
+		}
+	});
+	sink.summary(json!({}));
+}
+
 /// Builds a file whose metadata is nested `depth` deep and reads it in a CHILD process so that a
 /// stack overflow (process abort) is observed as data.
 pub fn cmd_deep_meta(a: &Args) {
